@@ -607,7 +607,15 @@ class ConcListView:
 
     @property
     def len(self):
-        return len(self._heap[self._oid].fields['items'])
+        items = self._heap[self._oid].fields['items']
+        hid = [x for x in items if isinstance(x, VHidden)]
+        if hid:
+            return z3.simplify(len(items) - len(hid) + sum(x.count for x in hid))
+        return len(items)
+
+    def last(self, k=1):
+        """k-th element from the end (1 = last)"""
+        return to_spec(self._ctx, self._heap, self._heap[self._oid].fields['items'][-k])
 
     def get(self, i):
         items = self._heap[self._oid].fields['items']
@@ -652,6 +660,9 @@ def to_spec(ctx, heap, v):
         if h.kind == 'grid':
             from .grid import GridView
             return GridView(ctx, heap, v.oid)
+        if h.kind == 'symdict':
+            from .symdict import SymDictView
+            return SymDictView(h)
         return ObjView(ctx, heap, v.oid)
     if isinstance(v, (VFunc, VModule)):
         return v
@@ -734,7 +745,16 @@ def _rematch_axioms(t):
         + _refind_axioms(f)
 
 
-AXIOMS = {'Find': _find_axioms, 'RFind': _find_axioms, 'ReFind': _refind_axioms, 'ReMatch': _rematch_axioms}
+def _isdigits_axioms(t):
+    a = t.arg(0)
+    out = [z3.Implies(t, S.IntOf(a) >= 0)]
+    if z3.is_app(a) and a.decl().kind() == z3.Z3_OP_SEQ_CONCAT:
+        parts = a.children()
+        out.append(z3.Implies(z3.And(*[S.IsDigits(p) for p in parts]), t))
+    return out
+
+
+AXIOMS = {'IsDigits': _isdigits_axioms, 'Find': _find_axioms, 'RFind': _find_axioms, 'ReFind': _refind_axioms, 'ReMatch': _rematch_axioms}
 
 
 def collect_apps(f, names, out, seen):
